@@ -404,6 +404,11 @@ impl AddDays {
                 }
             }
         }
+        // the first and the last days of the range too: from them the additions below reach across the whole range
+        days.extend(MIN_DAY..MIN_DAY + 13);
+        days.extend(MAX_DAY - 18..=MAX_DAY);
+        days.sort();
+        days.dedup();
         let w = tier.pick(70, 800);
         let mut ns: Vec<i64> = (-w..=w).collect();
         ns.extend([-146_097, -36_525, -1461, -1000, 1000, 1461, 36_525, 146_097]);
@@ -440,7 +445,9 @@ impl Space for AddDays {
             let t = call(|| dt.to_plain_time());
             out.lockstep("PlainDateTime::to_plain_time", &Ok((23u8, 59u8, 59u8, 999u16, 999u16, 999u16)), &t, |a, b| (b.hour(), b.minute(), b.second(), b.millisecond(), b.microsecond(), b.nanosecond()) == *a, || vec![("date", format!("{y:+05}-{m:02}-{d:02}"))]);
         }
-        for n in &self.ns {
+        // from either end of the range to every day of the other end (the longest additions there are)
+        let across: Vec<i64> = if e < MIN_DAY + 13 { (MAX_DAY - 18..=MAX_DAY + 1).map(|t| t - e).collect() } else if e > MAX_DAY - 19 { (MIN_DAY - 1..MIN_DAY + 13).map(|t| t - e).collect() } else { vec![] };
+        for n in self.ns.iter().chain(across.iter()) {
             let attrs = || vec![("date", format!("{y:+05}-{m:02}-{d:02}")), ("n", n.to_string()), ("month", m.to_string()), ("day_plus_n", (d as i64 + n).to_string())];
             let target = e + n;
             let model = if (MIN_DAY..=MAX_DAY).contains(&target) { Ok(civil_from_days(target)) } else { Err(ErrorKind::Range) };
